@@ -24,11 +24,26 @@ Definition std_cmp (o : cmpop) : pyop :=
 
 Lemma bool_table_standard : forall o, lookup_op (cmpop_text o) bool_ops = Some (std_cmp o, false).
 Proof. destruct o; reflexivity. Qed.
-(* && / || : Python `a and b` (an operand) or `bool(a and b)` (a truth value); both agree on truth-valued operands *)
-Lemma bool_table_and : lookup_op "&&" bool_ops = Some (PyAnd, false) \/ lookup_op "&&" bool_ops = Some (PyAndBool, false).
-Proof. first [left; reflexivity | right; reflexivity]. Qed.
-Lemma bool_table_or : lookup_op "||" bool_ops = Some (PyOr, false) \/ lookup_op "||" bool_ops = Some (PyOrBool, false).
-Proof. first [left; reflexivity | right; reflexivity]. Qed.
+(* && / || : bool(a and b) / bool(a or b), truth values *)
+Lemma bool_table_and : lookup_op "&&" bool_ops = Some (PyAndBool, false).
+Proof. reflexivity. Qed.
+Lemma bool_table_or : lookup_op "||" bool_ops = Some (PyOrBool, false).
+Proof. reflexivity. Qed.
+Lemma defined_looks_up_names : defined_by_name = true.
+Proof. reflexivity. Qed.
+Lemma size_mask_spec : forall s, lookup_mask (isize_text s) size_masks = Some (Z.ones (spec_size_bits s)).
+Proof. destruct s; reflexivity. Qed.
+Lemma blob_marker_present : blob_bytes_in_order = true.
+Proof. reflexivity. Qed.
+Lemma encrypt_counter_is_address : encrypt_counter_from_address = true.
+Proof. reflexivity. Qed.
+Lemma section_options_are_refused : section_options_refused = true.
+Proof. reflexivity. Qed.
+(* the lexer's literal rules are the non-greedy ones (texts of the regular expressions, extracted on this run) *)
+Lemma literal_regexes_non_greedy :
+  regex_of "STRING_LITERAL" = Some "\""[^\""\n]*\""" /\
+  regex_of "INT_LITERAL" = Some "\b([0-9]+[K]?|0[xX][0-9a-fA-F]+)\b|'[^'\n]*'".
+Proof. split; reflexivity. Qed.
 Lemma unary_minus_negates : str_in "-" unary_negating = true.
 Proof. reflexivity. Qed.
 Lemma unary_plus_identity : str_in "+" unary_negating = false.
@@ -57,11 +72,11 @@ Lemma prec_table_documented :
   (forall p q, In p c_table -> In q c_table ->
      Nat.compare (prec_level precedence (fst p)) (prec_level precedence (fst q)) = Nat.compare (snd p) (snd q)) /\
   (forall p, In p c_table -> assoc_of precedence (fst p) = LeftA /\ prec_level precedence (fst p) <> 0%nat) /\
-  unary_lvl = lvl Sub.
+  unary_lvl = lvl Sub /\ (forall o, (lvl o < size_lvl)%nat).
 Proof.
   assert (H1 : forallb (fun p => forallb (prec_agrees p) c_table) c_table = true) by (vm_compute; reflexivity).
   assert (H2 : forallb left_and_present c_table = true) by (vm_compute; reflexivity).
-  split; [|split].
+  split; [|split; [|split]].
   - intros p q Hp Hq. rewrite forallb_forall in H1. specialize (H1 p Hp). rewrite forallb_forall in H1. specialize (H1 q Hq).
     unfold prec_agrees in H1.
     destruct (Nat.compare (prec_level precedence (fst p)) (prec_level precedence (fst q))), (Nat.compare (snd p) (snd q));
@@ -70,6 +85,7 @@ Proof.
     destruct (assoc_of precedence (fst p)); try discriminate. split; [reflexivity|].
     intros E. rewrite E in H2. discriminate.
   - reflexivity.
+  - destruct o; vm_compute; repeat constructor.
 Qed.
 
 Lemma forallb_In {A} (f : A -> bool) l : forallb f l = true -> forall x, In x l -> f x = true.
@@ -122,22 +138,28 @@ Lemma to_opt_bind {A B} (r : res A) (f : A -> res B) :
   to_opt (bind r f) = obind (to_opt r) (fun a => to_opt (f a)).
 Proof. destruct r; reflexivity. Qed.
 
-Theorem expr_sem_except_known :
-  forall env e, no_size e = true -> to_opt (eval_impl env e) = eval_spec env e.
+Theorem expr_sem : forall env e, to_opt (eval_impl env e) = eval_spec env e.
 Proof.
-  intros env e. induction e as [z|x|o a IHa b IHb|a IHa|a IHa|a IHa s]; simpl; intros H.
+  intros env e. induction e as [z|x|o a IHa b IHb|a IHa|a IHa|a IHa s]; simpl.
   - reflexivity.
   - destruct (lookup_var x env) as [[z|s|s|b]|]; reflexivity.
-  - apply andb_true_iff in H. destruct H as [Ha Hb].
-    rewrite to_opt_bind, (IHa Ha). destruct (eval_spec env a) as [va|]; simpl; [|reflexivity].
-    rewrite to_opt_bind, (IHb Hb). destruct (eval_spec env b) as [vb|]; simpl; [|reflexivity].
+  - rewrite to_opt_bind, IHa. destruct (eval_spec env a) as [va|]; simpl; [|reflexivity].
+    rewrite to_opt_bind, IHb. destruct (eval_spec env b) as [vb|]; simpl; [|reflexivity].
     rewrite expr_table_standard. simpl. apply apply_std_spec.
-  - rewrite to_opt_bind, (IHa H). destruct (eval_spec env a); simpl; [|reflexivity].
+  - rewrite to_opt_bind, IHa. destruct (eval_spec env a); simpl; [|reflexivity].
     try rewrite unary_minus_negates; reflexivity.
-  - rewrite to_opt_bind, (IHa H). destruct (eval_spec env a); simpl; [|reflexivity].
+  - rewrite to_opt_bind, IHa. destruct (eval_spec env a); simpl; [|reflexivity].
     try rewrite unary_plus_identity; reflexivity.
-  - discriminate.
+  - rewrite to_opt_bind, IHa. destruct (eval_spec env a) as [v|]; simpl; [|reflexivity].
+    try rewrite period_not_in_chain. rewrite size_mask_spec. simpl.
+    rewrite Z.land_ones by (destruct s; simpl; lia). reflexivity.
 Qed.
+
+(* the suffix binds tighter than the binary operators: 0xa.b + 0xb.b is (0xa.b) + (0xb.b) *)
+Example size_suffix_binds_tightest :
+  parse_tokens [TNum 10; TSize SzB; TOp Add; TNum 11; TSize SzB] = Some (EBin Add (ESize (ELit 10) SzB) (ESize (ELit 11) SzB)) /\
+  eval_impl [] (ESize (ELit 85) SzB) = Ok 85 /\ eval_impl [] (ESize (ELit 4386) SzH) = Ok 4386.
+Proof. repeat split; vm_compute; reflexivity. Qed.
 
 Theorem division_is_c_division_on_naturals :
   forall a b, 0 <= a -> 0 < b ->
@@ -156,89 +178,28 @@ Proof. destruct b; simpl; auto. Qed.
 Lemma apply_cmp_spec : forall o a b, apply_py (std_cmp o) a b = Ok (b2z (spec_cmp o a b)).
 Proof. destruct o; reflexivity. Qed.
 
-Lemma and4 : forall a b c d, a && b && c && d = true -> a = true /\ b = true /\ c = true /\ d = true.
-Proof. intros [] [] [] []; simpl; intros; auto; discriminate. Qed.
-
-Opaque bool_ops.
-
-Lemma and_row_01 : forall va vc v, (va = 0 \/ va = 1) -> (vc = 0 \/ vc = 1) ->
-  apply_row (lookup_op "&&" bool_ops) va vc = Ok v -> v = 0 \/ v = 1.
+Theorem bool_sem : forall env b, to_opt (beval_impl env b) = beval_spec env b.
 Proof.
-  intros va vc v Ha Hc H. destruct bool_table_and as [E|E]; rewrite E in H; simpl in H; inversion H.
-  - destruct (va =? 0); assumption.
-  - apply b2z_01.
-Qed.
-Lemma or_row_01 : forall va vc v, (va = 0 \/ va = 1) -> (vc = 0 \/ vc = 1) ->
-  apply_row (lookup_op "||" bool_ops) va vc = Ok v -> v = 0 \/ v = 1.
-Proof.
-  intros va vc v Ha Hc H. destruct bool_table_or as [E|E]; rewrite E in H; simpl in H; inversion H.
-  - destruct (va =? 0); assumption.
-  - apply b2z_01.
-Qed.
-Lemma and_row_spec : forall va vc, (va = 0 \/ va = 1) -> (vc = 0 \/ vc = 1) ->
-  apply_row (lookup_op "&&" bool_ops) va vc = Ok (b2z (negb (va =? 0) && negb (vc =? 0))).
-Proof.
-  intros va vc Ha Hc. destruct bool_table_and as [E|E]; rewrite E; simpl; [|reflexivity].
-  destruct Ha, Hc; subst; reflexivity.
-Qed.
-Lemma or_row_spec : forall va vc, (va = 0 \/ va = 1) -> (vc = 0 \/ vc = 1) ->
-  apply_row (lookup_op "||" bool_ops) va vc = Ok (b2z (negb (va =? 0) || negb (vc =? 0))).
-Proof.
-  intros va vc Ha Hc. destruct bool_table_or as [E|E]; rewrite E; simpl; [|reflexivity].
-  destruct Ha, Hc; subst; reflexivity.
-Qed.
-
-Lemma shaped_value_01 : forall env b v,
-  bclean b = true -> bool_shaped b = true -> beval_impl env b = Ok v -> v = 0 \/ v = 1.
-Proof.
-  intros env b. induction b as [e|o a IHa c IHc|a IHa c IHc|a IHa c IHc|a IHa|x]; intros v Hc Hs Hv; simpl in *.
-  - destruct e; try discriminate. simpl in Hv. inversion Hv; subst.
-    apply orb_true_iff in Hs. destruct Hs as [H|H]; apply Z.eqb_eq in H; auto.
-  - destruct (beval_impl env a) as [va|]; simpl in Hv; [|discriminate].
-    destruct (beval_impl env c) as [vc|]; simpl in Hv; [|discriminate].
-    rewrite bool_table_standard in Hv. simpl in Hv. rewrite apply_cmp_spec in Hv. inversion Hv. apply b2z_01.
-  - apply and4 in Hc. destruct Hc as (Hca & Hcc & Hsa & Hsc).
-    destruct (beval_impl env a) as [va|] eqn:Ea; simpl in Hv; [|discriminate].
-    destruct (beval_impl env c) as [vc|] eqn:Ec; simpl in Hv; [|discriminate].
-    exact (and_row_01 va vc v (IHa va Hca Hsa eq_refl) (IHc vc Hcc Hsc eq_refl) Hv).
-  - apply and4 in Hc. destruct Hc as (Hca & Hcc & Hsa & Hsc).
-    destruct (beval_impl env a) as [va|] eqn:Ea; simpl in Hv; [|discriminate].
-    destruct (beval_impl env c) as [vc|] eqn:Ec; simpl in Hv; [|discriminate].
-    exact (or_row_01 va vc v (IHa va Hca Hsa eq_refl) (IHc vc Hcc Hsc eq_refl) Hv).
-  - destruct (beval_impl env a) as [va|]; simpl in Hv; [|discriminate]. inversion Hv. apply b2z_01.
-  - discriminate.
-Qed.
-
-Theorem bool_sem_except_known :
-  forall env b, bclean b = true -> to_opt (beval_impl env b) = beval_spec env b.
-Proof.
-  intros env b. induction b as [e|o a IHa c IHc|a IHa c IHc|a IHa c IHc|a IHa|x]; simpl; intros H.
-  - apply expr_sem_except_known; assumption.
-  - apply andb_true_iff in H. destruct H as [Ha Hc].
-    rewrite to_opt_bind, (IHa Ha). destruct (beval_spec env a) as [va|]; simpl; [|reflexivity].
-    rewrite to_opt_bind, (IHc Hc). destruct (beval_spec env c) as [vc|]; simpl; [|reflexivity].
+  intros env b. induction b as [e|o a IHa c IHc|a IHa c IHc|a IHa c IHc|a IHa|x]; simpl.
+  - apply expr_sem.
+  - rewrite to_opt_bind, IHa. destruct (beval_spec env a) as [va|]; simpl; [|reflexivity].
+    rewrite to_opt_bind, IHc. destruct (beval_spec env c) as [vc|]; simpl; [|reflexivity].
     rewrite bool_table_standard. simpl. rewrite apply_cmp_spec. reflexivity.
-  - apply and4 in H. destruct H as (Ha & Hc & H1 & H0).
-    rewrite to_opt_bind. specialize (IHa Ha). specialize (IHc Hc).
-    destruct (beval_impl env a) as [va|] eqn:Ea; simpl in *; rewrite <- IHa; simpl; [|reflexivity].
-    rewrite to_opt_bind.
-    destruct (beval_impl env c) as [vc|] eqn:Ec; simpl in *; rewrite <- IHc; simpl; [|reflexivity].
-    rewrite and_row_spec; [reflexivity | exact (shaped_value_01 env a va Ha H1 Ea) | exact (shaped_value_01 env c vc Hc H0 Ec)].
-  - apply and4 in H. destruct H as (Ha & Hc & H1 & H0).
-    rewrite to_opt_bind. specialize (IHa Ha). specialize (IHc Hc).
-    destruct (beval_impl env a) as [va|] eqn:Ea; simpl in *; rewrite <- IHa; simpl; [|reflexivity].
-    rewrite to_opt_bind.
-    destruct (beval_impl env c) as [vc|] eqn:Ec; simpl in *; rewrite <- IHc; simpl; [|reflexivity].
-    rewrite or_row_spec; [reflexivity | exact (shaped_value_01 env a va Ha H1 Ea) | exact (shaped_value_01 env c vc Hc H0 Ec)].
-  - rewrite to_opt_bind, (IHa H). destruct (beval_spec env a); reflexivity.
-  - discriminate.
+  - rewrite to_opt_bind, IHa. destruct (beval_spec env a) as [va|]; simpl; [|reflexivity].
+    rewrite to_opt_bind, IHc. destruct (beval_spec env c) as [vc|]; simpl; [|reflexivity].
+    try rewrite bool_table_and; reflexivity.
+  - rewrite to_opt_bind, IHa. destruct (beval_spec env a) as [va|]; simpl; [|reflexivity].
+    rewrite to_opt_bind, IHc. destruct (beval_spec env c) as [vc|]; simpl; [|reflexivity].
+    try rewrite bool_table_or; reflexivity.
+  - rewrite to_opt_bind, IHa. destruct (beval_spec env a); reflexivity.
+  - unfold defined_impl, is_defined. rewrite defined_looks_up_names. reflexivity.
 Qed.
-Transparent bool_ops.
 
-(* non-vacuity: a clean boolean expression with nested logical operators *)
-Example bclean_instance :
-  bclean (BOrL (BCmp CLt (BInt (ELit 1)) (BInt (EBin Add (ELit 2) (EVar 1)))) (BNot (BAndL (BInt (ELit 1)) (BCmp CEq (BInt (ELit 4)) (BInt (ELit 4)))))) = true.
-Proof. reflexivity. Qed.
+Example bool_sem_instances :
+  beval_impl [] (BAndL (BInt (ELit 2)) (BInt (ELit 3))) = Ok 1 /\ beval_impl [] (BOrL (BInt (ELit 0)) (BInt (ELit 5))) = Ok 1 /\
+  beval_impl [] (BCmp CEq (BAndL (BInt (ELit 2)) (BInt (ELit 3))) (BInt (ELit 1))) = Ok 1 /\
+  beval_impl [(7%N, DInt 0)] (BDefined 7) = Ok 1 /\ beval_impl [(7%N, DInt 0)] (BDefined 8) = Ok 0.
+Proof. repeat split. Qed.
 
 (* ================================================================================================== *)
 (** * Constants resolve to their definitions                                                          *)
